@@ -1,4 +1,7 @@
 import IcyVerif.Lemmas.Comp
+import IcyVerif.Lemmas.CompTop
+import IcyVerif.Lemmas.CompLayer
+import IcyVerif.Model.CompHalf
 /-! # C13 — layer compositing obeys the stacking laws
 
 `getChar hb isTerm S x y` is `Buffer::get_char((x, y))` for the layer stack `S` (bottom layer first, as in
@@ -12,6 +15,11 @@ AttributedChar`, which ignores the font page — the observation the property ta
 exactly where a silent layer is inserted/removed *inside the rectangle it covers*: the loop copies
 `default_font_page` from every covering visible layer, so the fall-through cell's font page is that of the
 lowest covering visible layer.
+
+Beyond the stacking laws the file states "topmost first" (`topmost_first`, `topmost_opaque_blank`, `nothing_visible`:
+a complete case split of what the walk displays), the laws of the layer's offset state machine (`set_offset_places` …
+`translate_stack_api`: `getCharS` over layers with base offset / pending preview / position lock, the compositor reading
+`get_offset()`), and facts about the transcribed half-block classifier on the regenerated CP437 bitmaps.
 
 Semantics copied from the code, not "fixed":
 * a Chars layer over a Chars layer: the LOWER one's character wins (the loop overwrites `ch_opt` on the way down);
@@ -147,6 +155,222 @@ theorem getCharC_eq_getChar (S : List Layer) (x y : Int)
   unfold getCharC getChar
   exact goC_eq hb isTerm x y _ _ (fun l hl => h l (List.mem_reverse.mp hl))
 
+/-! ## "topmost first"
+
+Walking down from the top, the layers that *pass* at the position (`Layer.passes`: hidden, not covering, Chars /
+Attributes layers, alpha Normal layers with an invisible cell) only leave the modifiers `charFrom` / `attrFrom` (the
+LOWEST Chars / Attributes cell above wins — the loop overwrites `ch_opt` / `attr_opt` on the way down).  The first
+layer that does not pass decides: a Normal layer with a visible cell shows that cell (merged with the modifiers above
+it), and the layers beneath may only fill its transparent colours in (`Cell.fills`); an opaque Normal layer with an
+invisible cell shows the default cell merged with the modifiers; if every layer passes the fall-through cell is shown.
+`S = below ++ l :: above` is `buffer.layers` (bottom first).
+
+True of the repaired code only: before `fix: Buffer::get_char keeps a pending transparent-colour cell …` the opaque
+branch overwrote the remembered cell and `topmost_first` was false for a stack `[opaque Normal, Attributes cell,
+transparent-colour half block]` (known_findings.txt). -/
+
+/-- The first Normal layer with a visible cell (from the top) decides the character, the flags, the font page and
+    every colour that is not `TRANSPARENT_COLOR`; without a transparent colour it is displayed exactly. -/
+theorem topmost_first (below above : List Layer) (l : Layer) (x y : Int)
+    (hp : ∀ a ∈ above, a.passes x y = true)
+    (hv : l.visible = true) (hc : l.covers x y = true) (hm : l.mode = .normal)
+    (hcell : (l.cellAt x y).isVisible = true) :
+    (merge (l.cellAt x y) (charFrom x y above) (attrFrom x y above)).fills (getChar hb isTerm (below ++ l :: above) x y)
+    ∧ ((merge (l.cellAt x y) (charFrom x y above) (attrFrom x y above)).hasTransparentColor = false →
+        getChar hb isTerm (below ++ l :: above) x y = merge (l.cellAt x y) (charFrom x y above) (attrFrom x y above)) := by
+  have key : (merge (l.cellAt x y) (charFrom x y above) (attrFrom x y above)).fills
+      (getChar hb isTerm (below ++ l :: above) x y) := by
+    unfold getChar
+    simp only [List.reverse_append, List.reverse_cons, List.append_assoc, List.singleton_append]
+    rw [go_passes hb isTerm x y above.reverse _ _ (fun a ha => hp a (List.mem_reverse.mp ha))]
+    obtain ⟨d, hd⟩ := foldl_init x y above
+    rw [hd]
+    exact go_decider hb isTerm x y l below.reverse ⟨charFrom x y above, attrFrom x y above, d, none⟩ hv hc hm hcell rfl
+  exact ⟨key, fun ht => Cell.fills_solid key ht⟩
+
+/-- The special case without merging layers: no Chars / Attributes cell above → the topmost visible cell itself. -/
+theorem topmost_first_plain (below above : List Layer) (l : Layer) (x y : Int)
+    (hp : ∀ a ∈ above, a.passes x y = true)
+    (hn : ∀ a ∈ above, a.givesChar x y = false ∧ a.givesAttr x y = false)
+    (hv : l.visible = true) (hc : l.covers x y = true) (hm : l.mode = .normal)
+    (hcell : (l.cellAt x y).isVisible = true) :
+    (l.cellAt x y).fills (getChar hb isTerm (below ++ l :: above) x y) := by
+  have h := (topmost_first hb isTerm below above l x y hp hv hc hm hcell).1
+  have h1 : charFrom x y above = none := by
+    unfold charFrom
+    rw [List.find?_eq_none.mpr (fun a ha => by simp [(hn a ha).1])]; rfl
+  have h2 : attrFrom x y above = none := by
+    unfold attrFrom
+    rw [List.find?_eq_none.mpr (fun a ha => by simp [(hn a ha).2])]; rfl
+  rw [h1, h2] at h
+  have hmerge : merge (l.cellAt x y) none none = l.cellAt x y := by unfold merge; split <;> rfl
+  rw [hmerge] at h
+  exact h
+
+/-- An opaque Normal layer whose cell is invisible, reached first: the default cell (on the layer's default font
+    page) merged with the modifiers above it; its own transparent colours (an Attributes cell may carry one) are
+    resolved against the plain default cell. -/
+theorem topmost_opaque_blank (below above : List Layer) (l : Layer) (x y : Int)
+    (hp : ∀ a ∈ above, a.passes x y = true)
+    (hv : l.visible = true) (hc : l.covers x y = true) (hm : l.mode = .normal) (ha : l.alpha = false)
+    (hcell : (l.cellAt x y).isVisible = false) :
+    getChar hb isTerm (below ++ l :: above) x y =
+      (let res := merge (defaultCell.withPage l.dfltPage) (charFrom x y above) (attrFrom x y above)
+       if (charFrom x y above).isSome || (attrFrom x y above).isSome then makeSolid hb res defaultCell else res) := by
+  unfold getChar
+  simp only [List.reverse_append, List.reverse_cons, List.append_assoc, List.singleton_append]
+  rw [go_passes hb isTerm x y above.reverse _ _ (fun a ha => hp a (List.mem_reverse.mp ha))]
+  obtain ⟨d, hd⟩ := foldl_init x y above
+  rw [hd, go_opaque_blank hb isTerm x y l below.reverse _ hv hc hm ha hcell]
+  rfl
+
+/-- No layer produces a cell: the fall-through cell — the default cell merged with the modifiers (always on a terminal
+    buffer), else `AttributedChar::invisible()`. -/
+theorem nothing_visible (S : List Layer) (x y : Int) (hp : ∀ a ∈ S, a.passes x y = true) :
+    getChar hb isTerm S x y ≈
+      (if isTerm || (charFrom x y S).isSome || (attrFrom x y S).isSome
+       then merge defaultCell (charFrom x y S) (attrFrom x y S) else invisibleCell) := by
+  unfold getChar
+  have := go_passes hb isTerm x y S.reverse [] St.init (fun a ha => hp a (List.mem_reverse.mp ha))
+  rw [List.append_nil] at this
+  rw [this]
+  obtain ⟨d, hd⟩ := foldl_init x y S
+  rw [hd]
+  unfold go finish
+  exact ⟨rfl, rfl, rfl, rfl⟩
+
+/-! ## where a layer is shown: the offset state machine of `Layer` (Model/CompLayer.lean)
+
+`getCharS` is `Buffer::get_char` over layers with position state (`properties.offset`, `preview_offset`,
+`is_position_locked`); the compositor reads `Layer::get_offset()`. -/
+
+/-- After `set_offset(q)` on an unlocked layer the layer contributes its (unchanged) content at exactly `q` — after
+    EVERY history `ops` of `set_offset` / `set_preview_offset` / lock / direct writes of `properties.offset`, whatever
+    preview was pending. -/
+theorem set_offset_places (l : LayerS) (ops : List LOp) (q : Int × Int) (h : (l.run ops).posLocked = false) :
+    ((l.run ops).setOffset q).view = l.body.placedAt q := by
+  obtain ⟨q', hq'⟩ := l.run_body ops
+  rw [LayerS.view_setOffset _ q h, hq', Layer.placedAt_placedAt]
+
+/-- The same, as a statement about pictures: the stack shows what a stack built from scratch with that layer at `q`
+    shows (the oracle the harness runs on real `Layer`s). -/
+theorem set_offset_shows_at (A B : List LayerS) (l : LayerS) (ops : List LOp) (q : Int × Int) (x y : Int)
+    (h : (l.run ops).posLocked = false) :
+    getCharS hb isTerm (A ++ (l.run ops).setOffset q :: B) x y
+      = getCharS hb isTerm (A ++ LayerS.fresh (l.body.placedAt q) :: B) x y := by
+  unfold getCharS
+  simp only [List.map_append, List.map_cons]
+  rw [set_offset_places l ops q h, LayerS.view_fresh]
+
+/-- `set_offset` on a position-locked layer changes nothing. -/
+theorem set_offset_locked_ignored (l : LayerS) (q : Int × Int) (h : l.posLocked = true) : l.setOffset q = l :=
+  LayerS.setOffset_locked l q h
+
+/-- While a preview is pending the layer is shown at the preview offset, and cancelling it shows the layer at its base
+    offset again — after every history. -/
+theorem preview_shows_at (l : LayerS) (ops : List LOp) (p : Int × Int) :
+    ((l.run ops).setPreviewOffset (some p)).view = l.body.placedAt p
+    ∧ ((l.run ops).setPreviewOffset none).view = l.body.placedAt (l.run ops).getBaseOffset := by
+  obtain ⟨q', hq'⟩ := l.run_body ops
+  constructor
+  · rw [LayerS.view_setPreview_some, hq', Layer.placedAt_placedAt]
+  · rw [LayerS.view_setPreview_none]
+    show (l.run ops).body = l.body.placedAt ((l.run ops).body.offX, (l.run ops).body.offY)
+    rw [hq']; rfl
+
+/-- Operations on one layer do not touch another: layer `i` after a stack history is layer `i` after the operations
+    addressed to it. -/
+theorem layers_independent (S : List LayerS) (ops : List (Nat × LOp)) (i : Nat) :
+    (runStack S ops)[i]? = (S[i]?).map (fun l => l.run (opsFor i ops)) :=
+  runStack_getElem? S ops i
+
+/-- Invariant over ALL stack histories: the picture is that of the original contents, each placed at its layer's
+    `get_offset()` — no operation of the position API changes what a layer contributes, only where. -/
+theorem picture_after_history (S : List LayerS) (ops : List (Nat × LOp)) (x y : Int) :
+    getCharS hb isTerm (runStack S ops) x y
+      = getChar hb isTerm
+          (List.zipWith (fun (l l' : LayerS) => l.body.placedAt l'.getOffset) S (runStack S ops)) x y := by
+  unfold getCharS
+  rw [runStack_view]
+
+/-- "Moving a layer by an offset moves its contribution by exactly that offset", over the API: `set_offset(get_offset()
+    + d)` on an unlocked layer (any pending preview), and `set_preview_offset(Some(get_offset() + d))` on any layer. -/
+theorem move_layer_by (l : LayerS) (st : St) (x y dx dy : Int) :
+    (l.posLocked = false →
+      layerStep hb (x + dx) (y + dy) (l.setOffset (l.getOffset.1 + dx, l.getOffset.2 + dy)).view st
+        = layerStep hb x y l.view st)
+    ∧ layerStep hb (x + dx) (y + dy) (l.setPreviewOffset (some (l.getOffset.1 + dx, l.getOffset.2 + dy))).view st
+        = layerStep hb x y l.view st := by
+  constructor
+  · intro h
+    rw [LayerS.view_setOffset _ _ h, ← layerStep_shift hb x y dx dy l.view st]
+    rfl
+  · rw [LayerS.view_setPreview_some, ← layerStep_shift hb x y dx dy l.view st]
+    rfl
+
+/-- Moving every (unlocked) layer of a stack by `d` through `set_offset` translates the picture by `d`. -/
+theorem translate_stack_api (S : List LayerS) (dx dy : Int) (hu : ∀ l ∈ S, l.posLocked = false) (x y : Int) :
+    getCharS hb isTerm (S.map fun l => l.setOffset (l.getOffset.1 + dx, l.getOffset.2 + dy)) (x + dx) (y + dy)
+      = getCharS hb isTerm S x y := by
+  unfold getCharS
+  rw [← translate hb isTerm (S.map LayerS.view) x y dx dy]
+  simp only [List.map_map]
+  congr 1
+  apply List.map_congr_left
+  intro l hl
+  show (l.setOffset (l.getOffset.1 + dx, l.getOffset.2 + dy)).view = l.view.shift dx dy
+  rw [LayerS.view_setOffset _ _ (hu l hl)]
+  rfl
+
+/-! ## the half-block classifier (Model/CompHalf.lean) on the regenerated CP437 8x16 bitmaps
+
+`HalfBlock::from` on the default font: a full block shows the foreground in both halves, a blank the background, the
+upper / lower half block one each — so a transparent-colour half block composited over a half block keeps both
+colours.  (`221`, the left half block, has exactly a quarter of the cell set in each half and counts as background:
+the comparison is `>`.) -/
+
+theorem halfblock_cp437_shapes :
+    (ansiFont 0).map (fun f => (f.w * f.h / IcyVerif.Gen.CompFonts.halfThresholdDiv,
+        [32, 219, 220, 223, 221].map fun c => (f.glyph c).map halfOnes))
+      = some (32, [some (0, 0), some (64, 64), some (8, 64), some (56, 0), some (32, 32)]) := by
+  decide +kernel
+
+/-- on a buffer whose slot `p` holds CP437 8x16 -/
+theorem halfblock_cp437_blocks (fonts : Nat → Option BFont) (p : Nat) (hf : fonts p = ansiFont 0) (fg bg fl : Nat) :
+    halfBlockOf fonts ⟨219, ⟨fg, bg, fl, p⟩⟩ = (fg, fg) ∧ halfBlockOf fonts ⟨32, ⟨fg, bg, fl, p⟩⟩ = (bg, bg)
+    ∧ halfBlockOf fonts ⟨223, ⟨fg, bg, fl, p⟩⟩ = (fg, bg) ∧ halfBlockOf fonts ⟨220, ⟨fg, bg, fl, p⟩⟩ = (bg, fg) := by
+  have hs := halfblock_cp437_shapes
+  cases hfont : ansiFont 0 with
+  | none => rw [hfont] at hs; exact absurd hs (by simp)
+  | some f =>
+    rw [hfont] at hs
+    simp only [Option.map_some, Option.some.injEq, Prod.mk.injEq, List.map_cons, List.map_nil, List.cons.injEq,
+      and_true] at hs
+    obtain ⟨hthr, h32, h219, h220, h223, _⟩ := hs
+    unfold halfBlockOf
+    simp only [hf, hfont]
+    cases g32 : f.glyph 32 with
+    | none => rw [g32] at h32; exact absurd h32 (by simp)
+    | some d32 =>
+    cases g219 : f.glyph 219 with
+    | none => rw [g219] at h219; exact absurd h219 (by simp)
+    | some d219 =>
+    cases g220 : f.glyph 220 with
+    | none => rw [g220] at h220; exact absurd h220 (by simp)
+    | some d220 =>
+    cases g223 : f.glyph 223 with
+    | none => rw [g223] at h223; exact absurd h223 (by simp)
+    | some d223 =>
+    rw [g32] at h32; rw [g219] at h219; rw [g220] at h220; rw [g223] at h223
+    simp only [Option.map_some, Option.some.injEq] at h32 h219 h220 h223
+    simp only [hthr, h32, h219, h220, h223]
+    refine ⟨?_, ?_, ?_, ?_⟩ <;> simp
+
+/-- non-vacuity: a transparent-background upper half block over a lower half block keeps both colours (real bitmaps) -/
+example : makeSolidF (fontTable [(0, 0)]) ⟨223, ⟨3, IcyVerif.Gen.Comp.transparentColor, 0, 0⟩⟩ ⟨220, ⟨5, 6, 0, 0⟩⟩
+    = ⟨223, ⟨3, 5, 0, 0⟩⟩ := by decide +kernel
+example : fontTable [(0, 0)] 0 = ansiFont 0 := rfl
+
 /-! ## why the hypotheses are there (facts about the code, by evaluation) -/
 section witnesses
 def hb0 : Cell → Nat × Nat := fun c => (c.attr.bg, c.attr.bg)
@@ -197,6 +421,46 @@ example : hidden1.visible = false := rfl
 example : getChar hbT false ([bottom] ++ emptyAlpha :: [mid, top]) 1 0 = getChar hbT false [bottom, mid, top] 1 0 := by
   decide
 example : getChar hbT false ([bottom, mid, top].map (Layer.shift 3 (-2))) (1 + 3) (0 + -2) = ⟨220, ⟨4, 1, 0, 0⟩⟩ := by
+  decide
+
+/-! ### topmost first -/
+-- no merging layer above: the half block of `top` decides at (0,0); its transparent background is filled from below
+example : (∀ a ∈ ([] : List Layer), a.passes 0 0 = true) ∧ top.visible = true ∧ top.covers 0 0 = true ∧ top.mode = .normal
+    ∧ (top.cellAt 0 0).isVisible = true ∧ top.cellAt 0 0 = halfT := by decide
+example : halfT.fills (getChar hbT false ([bottom, mid] ++ top :: []) 0 0) := by decide
+-- a Chars layer above the deciding cell: `mid` passes at (1,0) and imposes 'C' on the 'B' of `bottom`
+example : (∀ a ∈ [mid], a.passes 1 0 = true) ∧ charFrom 1 0 [mid] = some 67 ∧ attrFrom 1 0 [mid] = none
+    ∧ bottom.visible = true ∧ bottom.covers 1 0 = true ∧ bottom.mode = .normal ∧ (bottom.cellAt 1 0).isVisible = true := by
+  decide
+example : getChar hbT false ([] ++ bottom :: [mid]) 1 0 = merge (bottom.cellAt 1 0) (some 67) none := by decide
+/-- the stack on which the code was repaired (known_findings.txt): opaque Normal layer without a cell, an Attributes cell,
+    a transparent-colour upper half block on top.  The half block is displayed (before the repair: `' '/4/6`). -/
+def opaqueBlank : Layer := ⟨true, false, .normal, 0, 0, 1, 1, 0, []⟩
+def attrL : Layer := ⟨true, true, .attributes, 0, 0, 1, 1, 0, [[⟨219, ⟨4, 6, 0, 0⟩⟩]]⟩
+def halfTop : Layer := ⟨true, true, .normal, 0, 0, 1, 1, 0, [[⟨223, ⟨3, transparentColor, 0, 0⟩⟩]]⟩
+example : getChar hb0 false ([opaqueBlank, attrL] ++ halfTop :: []) 0 0 = ⟨223, ⟨3, 6, 0, 0⟩⟩ := by decide
+example : (⟨223, ⟨3, transparentColor, 0, 0⟩⟩ : Cell).fills (getChar hbT false ([opaqueBlank, attrL] ++ halfTop :: []) 0 0) := by
+  decide
+-- `topmost_opaque_blank` and `nothing_visible`: hypotheses satisfiable with a modifier present
+example : (∀ a ∈ [attrL], a.passes 0 0 = true) ∧ attrFrom 0 0 [attrL] = some ⟨4, 6, 0, 0⟩ ∧ opaqueBlank.alpha = false
+    ∧ (opaqueBlank.cellAt 0 0).isVisible = false := by decide
+example : getChar hbT false ([] ++ opaqueBlank :: [attrL]) 0 0 = ⟨32, ⟨4, 6, 0, 0⟩⟩ := by decide
+example : (∀ a ∈ [attrL, emptyAlpha], a.passes 0 0 = true) ∧ getChar hbT false [attrL, emptyAlpha] 0 0 = ⟨32, ⟨4, 6, 0, 0⟩⟩ := by
+  decide
+
+/-! ### the offset state machine -/
+/-- a layer dragged to (5,3), locked, `set_offset` ignored, unlocked again: a preview is still pending -/
+def dragged : LayerS := (LayerS.fresh top).run [.setPreview (some (5, 3)), .setLocked true, .setOffset (9, 9), .setLocked false]
+example : dragged.posLocked = false ∧ dragged.getPreviewOffset = some (5, 3) ∧ dragged.getOffset = (5, 3)
+    ∧ dragged.getBaseOffset = (-1, 0) := by decide
+-- dropping it where it started (the shape of seeded change C13_4): shown at the base offset, preview gone
+example : (dragged.setOffset (-1, 0)).getOffset = (-1, 0) ∧ (dragged.setOffset (-1, 0)).getPreviewOffset = none := by decide
+example : getCharS hbT false ([LayerS.fresh bottom, LayerS.fresh mid] ++ dragged.setOffset (-1, 0) :: []) 0 0
+    = getChar hbT false [bottom, mid, top] 0 0 := by decide
+example : getCharS hbT false [LayerS.fresh bottom, LayerS.fresh mid, dragged] 6 3
+    = getChar hbT false [bottom, mid, top.placedAt (5, 3)] 6 3 := by decide
+-- a stack history: operations on layer 2 leave layer 0 alone
+example : opsFor 0 [(2, LOp.setOffset (1, 1)), (0, .setPreview (some (2, 2))), (2, .setLocked true)] = [.setPreview (some (2, 2))] := by
   decide
 end nonvacuity
 
